@@ -862,7 +862,8 @@ def build():
         print("ERROR generated Table.v does not compile:\n" + out[-3000:])
         return 2
     probe = os.path.join(OUT, "Probe.v")
-    open(probe, "w").write("From RV Require Import _cases.C35T.Table.\n"
+    open(probe, "w").write("From Coq Require Import String List.\nFrom RV Require Import _cases.C35T.Table.\n"
+                           "Import ListNotations.\nOpen Scope string_scope.\n"
                            "Eval vm_compute in (bad_rows false the_table, bad_rows true the_table, "
                            "snodupb (table_keys the_table)).\n")
     rc, out = sh(["coqc", "-noglob", "-Q", COQ, "RV", probe])
